@@ -242,6 +242,14 @@ def eval_mutator(bev, fn, opt_fields):
     return ("cases", I, cases), merged
 
 
+def effect_sig(cur):
+    if cur[0] == "f":
+        return f"and={cur[1]:#x},xor={cur[2]:#x}"
+    if cur[0] == "cases":
+        return "cases:" + ";".join(f"{a:#x}>{(r[1] if r[0] == 'f' else 0):#x}^{(r[2] if r[0] == 'f' else 0):#x}" for a, r, _ in cur[2][:16])
+    return repr(cur)[:80]
+
+
 def mutator_differs(cur, expA, expX, w):
     """None when the mutator's effect on inner is (inner & expA) ^ expX for every value, else a description with a witness."""
     if cur[0] == "f":
@@ -351,8 +359,9 @@ def check_flag_type(ctx, g, crate, lpath, wflag, zero_valid, rule_prefix, key0, 
             for it in im["items"]:
                 if it[0] == "fn":
                     methods[it[1]] = it[2]
-    def viol(meth, msg, fn=None):
-        ctx.violate(rule_prefix + ".methods", f"{key0}|{meth}", f"{lpath.split('::')[-1]}::{meth}: {msg}",
+    def viol(meth, msg, fn=None, sig=None):
+        # sig: the observed (wrong) effect, part of the key: a different defect in the same method is another instance
+        ctx.violate(rule_prefix + ".methods", f"{key0}|{meth}" + (f"|{sig}" if sig else ""), f"{lpath.split('::')[-1]}::{meth}: {msg}",
                     fn["file"] if fn else adt["file"], fn["line"] if fn else adt["line"])
 
     seen_enumerators = {}
@@ -502,7 +511,7 @@ def check_flag_type(ctx, g, crate, lpath, wflag, zero_valid, rule_prefix, key0, 
                     else:
                         why = mutator_differs(cur, ones(w) & ~C & ones(w), C, w)
                         if why:
-                            viol(mname, f"{why}; specification: inner | {C:#x}", fn)
+                            viol(mname, f"{why}; specification: inner | {C:#x}", fn, sig=effect_sig(cur))
                     if member and flds.get(member, "").split(":")[0] != "some":
                         viol(mname, f"member {member} not set", fn)
                 else:
@@ -519,7 +528,7 @@ def check_flag_type(ctx, g, crate, lpath, wflag, zero_valid, rule_prefix, key0, 
                         # (every accepted reading has to fail for a report)
                     if all(whys):
                         viol(mname, f"{whys[0]}; specification: inner & !{C:#x} "
-                                    f"(removes exactly bits {C:#x}, keeps all others)", fn)
+                                    f"(removes exactly bits {C:#x}, keeps all others)", fn, sig=effect_sig(cur))
                     if member and flds.get(member) != "none":
                         viol(mname, f"member {member} not reset to None", fn)
             # the constant referenced must be the enumerator the method is named after
